@@ -36,7 +36,7 @@ func famGHighBitsZero(g *genctx, v int) *scen {
 	m, a := g.n("hb"), g.n("a")
 	s := &scen{features: []string{"G", "high_bits", t.name}}
 	s.fields = []string{fmt.Sprintf("%s : array[4] base.u8", a)}
-	s.methods = []string{fmt.Sprintf("pub func obj.%s!(x: %s, k: base.u32[..= 2]) base.u8 {\n    this.%s[args.x.high_bits(n: args.k)] = 1\n    return this.%s[0]\n}", m, t.name, a, a)}
+	s.methods = []string{fmt.Sprintf("pub func obj.%s!(x: %s, k: base.u32) base.u8 {\n    this.%s[args.x.high_bits(n: args.k & 1)] = 1\n    return this.%s[0]\n}", m, t.name, a, a)}
 	s.drive = func(r *rand.Rand) []Call {
 		return callsOver(r, m, [][]uint64{{0, 1, t.max(), t.max() >> 1}, {0, 1, 2}}, 12)
 	}
